@@ -11,6 +11,16 @@ CLAIMED = {
         note="Trusted: Lean kernel; py2lean translator for the five integer predicates; the hand model of the object layer is tied by the exhaustive correspondence only; CPython int/bytes conversions.",
         technique="Lean 4 proof (omega/simp over translated predicates) + exhaustive differential correspondence",
         design="4 C17"),
+    "C18": dict(
+        text="Lean theorems over the model of the two TBCD loops: decode(encode s) = s for every string without the filler character (hence every digit string, any length, odd or even, by two-step induction), length and index-wise nibble-swapped layout of the encoding, filler present iff the length is odd, and the bytes of MSISDN/STN-SR data built from a number equal the 3GPP TBCD octets of its decimal numeral. Tie: exhaustive correspondence over all digit strings up to length 5 (quick) / 7 (thorough) plus random strings, and AVPs from numbers.",
+        note="Trusted: Lean kernel; hand model of encode_to_tbcd/decode_from_tbcd tied by exhaustive differential runs; CPython str/int/bytes.fromhex; special characters (* # a b c) are outside the property and not modelled.",
+        technique="Lean 4 proof (structural induction on digit lists) + exhaustive differential correspondence",
+        design="4 C18"),
+    "C20": dict(
+        text="Lean theorems: for all 4 data bytes and every index 0..31 is_bit_set reads exactly Nat.testBit of the big-endian word; set_bit/unset_bit change exactly that bit (bytes stay bytes), redundant set/clear and indices >= 32 are rejected; the translated is_bit_set equals the hand model; Address data = family code ++ packed and the accessors return family and packed address back for every IPv4/IPv6 address; Time data = big-endian whole seconds for every representable instant, range error beyond; the calendar specification is characterised by epoch + successor laws. Tie: translator re-proof + differential correspondence (bits exhaustive over boundary words x indices).",
+        note="Trusted: Lean kernel; py2lean translation of is_bit_set; CPython ipaddress (IPv6 text<->packed; IPv4 cross-checked by a Lean recogniser) and datetime subtraction (cross-checked by the Lean calendar spec on every sampled instant); hand models of set_bit/unset_bit/AddressType/TimeType tied by correspondence.",
+        technique="Lean 4 proof (Nat.testBit extensionality, omega) + differential correspondence",
+        design="4 C20"),
 }
 
 NOT_YET = {
